@@ -269,6 +269,26 @@ Theorem surcharge_precision_holds_under_the_currency_rule d lcs :
 Proof. exact (currency_rule_precision_ok d lcs). Qed.
 Print Assumptions surcharge_precision_holds_under_the_currency_rule.
 
+(* ... and under either rule for a document with at least one line whose document discounts and
+   charges (doc_ddc: each paired with its calculated amount) have no more decimals than the gross
+   sum *)
+Theorem surcharge_precision_holds_unless_a_discount_or_charge_is_more_precise d lcs :
+  d_lines d <> [] ->
+  calc_lines (d_currency_rule d) (d_c d) (d_cur d) (d_rates d) (d_lines d) = Some lcs ->
+  Forall (fun p => (exp (snd p) <= exp (doc_gross d lcs))%nat) (doc_ddc d lcs (d_discounts d)) ->
+  Forall (fun p => (exp (snd p) <= exp (doc_gross d lcs))%nat) (doc_ddc d lcs (d_charges d)) ->
+  surcharge_precision_ok d lcs.
+Proof. exact (surcharge_precision_ok_from_document d lcs). Qed.
+Print Assumptions surcharge_precision_holds_unless_a_discount_or_charge_is_more_precise.
+
+(* in terms of the rows handed to the tax calculator (rows_precision_ok: no prepared row - line
+   total, negated discount, charge, raised to two more decimals than the currency - has more
+   decimals than the gross sum) *)
+Theorem surcharge_precision_holds_when_no_row_is_more_precise d lcs :
+  rows_precision_ok d lcs -> surcharge_precision_ok d lcs.
+Proof. exact (rows_precision_ok_enough d lcs). Qed.
+Print Assumptions surcharge_precision_holds_when_no_row_is_more_precise.
+
 (* without surcharges: the hypothesis holds, the surcharge total is zero, the identity is the
    one of included_tax_gross_identity_partial *)
 Theorem included_tax_gross_identity_is_the_case_without_surcharges d t :
@@ -293,6 +313,12 @@ Example included_tax_gross_identity_with_surcharges_applies :
     calculate c02_surcharge_example_doc = Totals t /\
     calc_lines false 2 1 [] (d_lines c02_surcharge_example_doc) = Some lcs /\
     surcharge_precision_ok c02_surcharge_example_doc lcs /\
+    rows_precision_ok c02_surcharge_example_doc lcs /\
+    d_lines c02_surcharge_example_doc <> [] /\
+    Forall (fun p => (exp (snd p) <= exp (doc_gross c02_surcharge_example_doc lcs))%nat)
+           (doc_ddc c02_surcharge_example_doc lcs (d_discounts c02_surcharge_example_doc)) /\
+    Forall (fun p => (exp (snd p) <= exp (doc_gross c02_surcharge_example_doc lcs))%nat)
+           (doc_ddc c02_surcharge_example_doc lcs (d_charges c02_surcharge_example_doc)) /\
     t_twt t = mkA 12620 2 /\ t_total t = mkA 10000 2 /\ t_tax t = mkA 2620 2 /\
     doc_gross c02_surcharge_example_doc lcs = mkA 1210000 4 /\
     included_surcharge c02_surcharge_example_doc lcs = mkA 52000 4.
@@ -300,7 +326,9 @@ Proof.
   split.
   - split; [discriminate|]. repeat constructor.
   - do 2 eexists. split; [vm_compute; reflexivity|]. split; [vm_compute; reflexivity|].
-    split; [vm_compute; right; repeat constructor|]. repeat split.
+    split; [vm_compute; right; repeat constructor|].
+    split; [vm_compute; repeat constructor|].
+    split; [discriminate|]. split; [constructor|]. split; [constructor|]. repeat split.
 Qed.
 
 (* the hypothesis on precisions cannot be dropped under 'precise': surcharge_precision_witness is
